@@ -30,7 +30,7 @@ IR (JSON-able, lists):
   expr    place | ["new"] | ["int", k] | ["tup", [expr..]] | ["struct", S, [expr..]]
           | ["call", fname, [expr..]]
   target  ["v", x] | ["f", x, field] | ["pat", [target..]]
-  stmt    ["assign", target, expr] | ["expr", expr] | ["if", cond, then, else]
+  stmt    ["assign", target, expr] | ["expr", expr] | ["retype", x] | ["if", cond, then, else]
           | ["while", cond, body] | ["break"] | ["continue"] | ["return", expr|None] | ["pass"]
   fn      {"params": [[name, type, mode]], "locals": {name: type}, "ret": type|None,
            "body": [stmt..]}     type in Q T S2 SI I B; mode in owned borrowed plain
@@ -323,6 +323,21 @@ class Interp:
             st = dict(st)
             self.eval(st, s[2], ctx)
             self.assign(st, s[1], ctx)
+            return _Flow(normal=st)
+        if k == "retype":
+            # `x = 0`: the name is re-bound to a classical value.  Whatever qubits it still holds are
+            # overwritten (they must not be live); afterwards the name holds no qubit at all (the
+            # generator only emits this as the last use of the name).
+            st = dict(st)
+            x = s[1]
+            leaves = self.root_leaves(x)
+            if x in self.borrowed and any(self.linear(lf) for lf in leaves):
+                self.err("borrow_shadowed", ctx, x)
+            for lf in leaves:
+                if self.linear(lf) and L in st[lf]:
+                    self.err("overwrite_live", ctx, self.leaf_text(lf))
+                if self.linear(lf):
+                    st[lf] = frozenset([M])
             return _Flow(normal=st)
         if k == "expr":
             st = dict(st)
